@@ -184,6 +184,8 @@ class GraphSim:
         self.max_nodes = max_nodes
         # some runs pile links onto few ports (a port with ten or more links, many parallel links)
         self.hot_bias = ctx.ch.coin(1, 6, "hot-port-bias")
+        # ... and some runs use port offsets far beyond the usual handful (nodes with dozens of ports)
+        self.high_offsets = (not in_range) and ctx.ch.coin(1, 8, "high-port-offsets")
         self.cat = catalogue()
         self.graphs: list[G] = [adopt("A", adopt_hugr) if adopt_hugr is not None else self._new_graph("A", ch)]
         n_aux = ch.draw(3, "n-aux") if n_aux is None else n_aux
@@ -242,6 +244,9 @@ class GraphSim:
             return ch.pick(opts, tag)
         if (has_order(spec, direction) or not self.order_only_valid) and ch.coin(1, 6, tag + "-order"):
             return -1
+        if self.high_offsets and ch.coin(1, 4, tag + "-high"):
+            self.ctx.probe("port_offset_8_or_more")
+            return 8 + ch.draw(24, tag + "-high-offset")
         return ch.draw(4, tag)
 
     def _note(self, actor, idx):
@@ -607,8 +612,14 @@ class GraphSim:
             if Node(d) in h:
                 V("lookup", "dead-node-contained", {"idx": d})
         maxoff = 3
+        oidx, iidx, max_o, max_i = {}, {}, {}, {}
         for (s, so, d, do) in m.links:
             maxoff = max(maxoff, so, do)
+            oidx.setdefault((s, so), Counter())[(d, do)] += 1
+            iidx.setdefault((d, do), Counter())[(s, so)] += 1
+            max_o[s] = max(max_o.get(s, -1), so)
+            max_i[d] = max(max_i.get(d, -1), do)
+        none = Counter()
         for i in live:
             nd = h[Node(i)]
             rn = m.nodes[i]
@@ -628,21 +639,29 @@ class GraphSim:
             nin, nout = h.num_in_ports(Node(i)), h.num_out_ports(Node(i))
             if h.num_ports(Node(i), Direction.INCOMING) != nin or h.num_ports(Node(i), Direction.OUTGOING) != nout:
                 V("port-count", "num_ports-disagrees", {"idx": i})
-            if nin < m.max_in(i) + 1 or nout < m.max_out(i) + 1:
+            if nin < max_i.get(i, -1) + 1 or nout < max_o.get(i, -1) + 1:
                 V("port-count", "below-highest-offset-in-use", {"idx": i, "in": nin, "out": nout,
-                  "max_in": m.max_in(i), "max_out": m.max_out(i)})
+                  "max_in": max_i.get(i, -1), "max_out": max_o.get(i, -1)})
             if g.req_outs.get(i) is not None and nout < g.req_outs[i]:
                 V("port-count", "below-requested", {"idx": i, "out": nout, "requested": g.req_outs[i]})
             # linked_ports from both ends, all offsets incl. order
             ctx.checked("linked_ports")
-            for off in range(-1, maxoff + 2):
-                got = Counter((q.node.idx, q.offset) for q in h.linked_ports(Node(i).out(off)))
-                exp = m.linked_from_out(i, off)
+            # (every offset up to a little beyond what the model and the store know of this node, a sample beyond)
+            lim_o = min(maxoff, max(max_o.get(i, -1), nout - 1, 3)) + 2
+            lim_i = min(maxoff, max(max_i.get(i, -1), nin - 1, 3)) + 2
+            for off in [*range(-1, max(lim_o, lim_i)), maxoff + 1]:
+                if off >= lim_o and off != maxoff + 1:
+                    got = exp = None
+                else:
+                    got = Counter((q.node.idx, q.offset) for q in h.linked_ports(Node(i).out(off)))
+                    exp = oidx.get((i, off), none)
                 if got != exp:
                     cls = "out-stops-early" if sum(got.values()) < sum(exp.values()) else "out-extra"
                     V("linked_ports", cls, {"port": [i, off], "got": sorted(got.elements()), "expected": sorted(exp.elements())})
+                if off >= lim_i and off != maxoff + 1:
+                    continue
                 got = Counter((q.node.idx, q.offset) for q in h.linked_ports(Node(i).inp(off)))
-                exp = m.linked_from_in(i, off)
+                exp = iidx.get((i, off), none)
                 if got != exp:
                     cls = "in-stops-early" if sum(got.values()) < sum(exp.values()) else "in-extra"
                     V("linked_ports", cls, {"port": [i, off], "got": sorted(got.elements()), "expected": sorted(exp.elements())})
